@@ -100,6 +100,14 @@ class World:
         notifications.lookup_utxos = db.lookup_utxos
         mpmod.MemPoolAPI.register(ctlmod.Notifications)
         self.mempool = mpmod.MemPool(env.coin, notifications)
+        # which daemon state the last completed mempool refresh was taken from (for `quiescent`)
+        self.mp_synced = None
+        orig_on_mempool = notifications.on_mempool
+
+        async def on_mempool(touched, height):
+            await orig_on_mempool(touched, height)
+            self.mp_synced = (daemon.listing_version, height)
+        notifications.on_mempool = on_mempool
         self.session_mgr = sessmod.SessionManager(env, db, bp, daemon, self.mempool, self.shutdown_event)
 
     def spawn(self, name, coro):
@@ -179,7 +187,9 @@ class World:
                 and self.bp.state.height == self.daemon.tip.height
                 and self.db.state.tip == self.daemon.tip.hash
                 and self.bp.reorg_count is None
-                and not self.loop.pending_jobs())
+                and not self.loop.pending_jobs()
+                and ('mempool' not in self.tasks
+                     or self.mp_synced == (self.daemon.version, self.daemon.tip.height)))
 
     def max_db_height(self):
         if self.db.state is not None:
